@@ -104,7 +104,26 @@ func Sources(v ssa.Value, through func(ssa.Value) bool) []ssa.Value {
 				}
 			}
 		}
+		if a, ok := v.(*ssa.Alloc); ok {
+			// address of a local cell: the values stored into it
+			n := 0
+			for _, ref := range *a.Referrers() {
+				if st, ok := ref.(*ssa.Store); ok && st.Addr == a {
+					walk(st.Val)
+					n++
+				}
+			}
+			if n > 0 {
+				return
+			}
+		}
 		if through != nil && through(v) {
+			if call, ok := v.(*ssa.Call); ok {
+				for _, a := range Args(&call.Call) {
+					walk(a)
+				}
+				return
+			}
 			if in, ok := v.(ssa.Instruction); ok {
 				for _, op := range in.Operands(nil) {
 					if op != nil && *op != nil {
